@@ -313,7 +313,7 @@ Proof.
   - cbn [fst]. fpeel frq_set_running. fpeel frq_park. destruct inc; [apply frq_upd_task, nkeeps_held|apply frq_refl].
   - destruct k as [| |c].
     + apply frq_ret.
-    + destruct inc; [apply frq_ret|fby_eq].
+    + destruct inc; [apply frq_ret|]. destruct (ckif_spins _ _ _); [fby_eq|apply frq_ret].
     + pose proof (frq_scope_exit Q s c t inc) as H. destruct (scope_exit s c t inc) as [s1 x]. cbn [fst] in H.
       destruct x; fpeel_ret; exact H.
   - fpeel_ret. fby_eq.
